@@ -2,12 +2,16 @@
 """Copies confirmed agent mutants to /verif/seeded/<id>/ and records which checks catch them, using the
 prescribed procedure: git -C /repo apply <patch>; run every check's quick command; git -C /repo checkout -- ."""
 import json, os, re, shutil, subprocess, sys, glob
-src = "/tmp/seed/out"
-skip = {"C14/m1": "manifests only for exponents beyond the package limits (MaxInt32), outside the property's domain"}
+src = sys.argv[1] if len(sys.argv) > 1 else "/tmp/seed/out"
+suffix = sys.argv[2] if len(sys.argv) > 2 else ""
+skip = {"C14/m1": "manifests only for exponents beyond the package limits (MaxInt32), outside the property's domain"} if not suffix else {
+    "C18/m2": "not confirmed: with the patch 3 stable baseline tests fail in this sandbox (the GDA runner shares one Context between goroutines)",
+    "C04/m1": "manifests only for a target exponent of MaxInt32, outside the package limits (out of the property's domain)",
+    "C17/m1": "manifests only for Exponent == MinInt32, outside the package limits (out of the property's domain)"}
 rows = []
 for d in sorted(glob.glob(src + "/C*/m*")):
     rel = d[len(src)+1:]
-    sid = rel.replace("/", "-")
+    sid = rel.replace("/", "-") + suffix
     if rel in skip:
         rows.append((sid, "NOT KEPT", skip[rel])); continue
     out = f"/verif/seeded/{sid}"
@@ -41,4 +45,7 @@ for d in sorted(glob.glob(src + "/C*/m*")):
     json.dump(meta, open(os.path.join(out, "meta.json"), "w"), indent=1)
     rows.append((sid, ",".join(props) or "MISSED", ",".join(rules)))
 for r in rows: print(*r, sep="\t")
-json.dump([{"seed": a, "properties": b, "rules": c} for a, b, c in rows], open("/verif/seeded/SUMMARY.json", "w"), indent=1)
+prev = []
+if suffix and os.path.exists("/verif/seeded/SUMMARY.json"):
+    prev = [e for e in json.load(open("/verif/seeded/SUMMARY.json")) if not e["seed"].endswith(suffix)]
+json.dump(prev + [{"seed": a, "properties": b, "rules": c} for a, b, c in rows], open("/verif/seeded/SUMMARY.json", "w"), indent=1)
